@@ -145,6 +145,7 @@ def check_day(it, y, m, d, n, s, offs, mode="full"):
     """Conversions for the day (y, m, d) whose predicted day number is n, with
     second-of-day s for the timed forms; offs = [(k, (y2, m2, d2)), ...] are
     offsets with the predicted target date.  mode:
+      "midnight" to_oa_date(date) == n exactly and to_date(n)
       "lean"   to_oa_date(date with time) and to_date of the number it gave
       "bound"  lean, to_date(n) at midnight, and one `date +- k` at midnight
                through the interpreter
@@ -174,6 +175,10 @@ def check_day(it, y, m, d, n, s, offs, mode="full"):
             out.append((key, "%s-mismatch: got %s, expected %r" % (fn, shown, want), case))
         return o
 
+    if mode == "midnight":
+        direct("to_oa_date", [y, m, d], n, lambda v: v == n)
+        direct("to_date", n, ymd + (0,), lambda v: fields(v) == ymd + (0,))
+        return out, cnt
     if mode != "arith":
         h, mi, se = hms(s)
         lean = mode in ("lean", "bound")
@@ -309,7 +314,11 @@ def _run_job(job, out, events, meta):
         _tag, y, m, n0, ln, seed = job
         r = random.Random(seed)
         for d in range(1, ln + 1):
-            o, c = check_day(None, y, m, d, n0 + d - 1, r.randrange(86400), [], "direct")
+            # both conversions at midnight and with a time on the first and last two days of the
+            # month, on the other days alternately with a time of day / at midnight
+            edge = d <= 2 or d >= ln - 1
+            mode = "direct" if edge else ("lean" if (n0 + d) % 2 else "midnight")
+            o, c = check_day(None, y, m, d, n0 + d - 1, r.randrange(86400), [], mode)
             out += o
             cnt += c
     elif job[0] == "traces":
@@ -622,7 +631,7 @@ def run(run):
         add_day(y, m, d, rng.choice(RANDOM_DAY_MODES), 1)
     ndays = len(jobs)
     if not quick:
-        # every day of every month: direct conversions (to_oa_date / to_date, with a random time)
+        # every day of every month: direct conversions (to_oa_date / to_date)
         for (n0, y, m, ln) in tab.rows:
             jobs.append(("month", y, m, n0, ln, rng.randrange(2 ** 30)))
             ndays += ln
@@ -639,7 +648,7 @@ def run(run):
             jobs.append(b + (tab.num(*b), rng.randrange(86400), offs[i:i + 4], "arith"))
             acases += len(offs[i:i + 4])
     # binding B: recorded walks
-    nt = 800 if quick else 12000
+    nt = 800 if quick else 8000
     per = 20
     for i in range(nt // per):
         jobs.append(("traces", rng.randrange(2 ** 30), per))
